@@ -67,6 +67,9 @@ fn check(p: &Prog, src: &str, inputs: &Inputs, n: u64) -> Out {
             // not well-typed for the repository's checker (e.g. projection of a variable whose tuple
             // type is not yet resolved): outside the property's domain
             o.discard = Some(format!("rejected:{}", crate::engine::panics::normalise(&d.first().map(|x| x.message.clone()).unwrap_or_default())));
+            if std::env::var_os("MMV_DUMP_REJECTED").is_some() {
+                eprintln!("---- rejected ----\n{src}");
+            }
         }
         Exec::NoIo => o.discard = Some("no-io".into()),
         Exec::Panic(stage, pn) => {
